@@ -1179,7 +1179,7 @@ func Run(r *vk.Run) {
 	r.Assume("clean region of today's tree is narrow: every call's limit exceeds the content of its whole scan window, so no batch ever ends inside a height there (any carry-over triggers C20-rescan-after-partial)")
 	rp := &reporter{r: r, seen: map[string]int{}}
 
-	n := r.N(4000, 200000)
+	n := r.N(40000, 400000)
 	nClean := n / 2
 	nSkip := n * 15 / 100
 	nPart := n * 20 / 100
